@@ -264,6 +264,16 @@ def r4(ctx):
                 rep.ok("flush:new-ttl-depends-on-old:%d" % rewrites, "new TTL depends on the old TTL (%s)" % ("data" if data_dep else "guard"), loc_s(e.span))
     if rewrites == 0:
         rep.bad("flush:no-rewrite", "delayed flush (ttl>0) reaches no alter_all: cannot locate the TTL rewrite", fb.loc())
+    # (iii) the arithmetic: on every path of the rewrite, new expiry <= the item's own expiry (affine entailment from the path's guards)
+    fd = storefacts.flush_deadlines(ctx)
+    if fd is None:
+        rep.bad("flush:deadline:cannot-evaluate", "cannot evaluate the delayed-flush rewrite", fb.loc())
+    else:
+        for i, r in enumerate(fd):
+            case = "ttl=0" if r["old_zero"] else ("ttl!=0" if r["old_nonzero"] else "?")
+            arm = "keep" if tform(r["new_ttl"]) == F(r["event"].extra["old"], "header", "time_to_live") else "rewrite"
+            k = "flush:never-prolongs[%s,%s]" % (case, arm)
+            rep.check(r["p2"] is True, k, "timestamp' + ttl' <= timestamp + old ttl follows from the path's guards", "delayed flush, item %s, %s arm: the new TTL %s is not bounded by the item's own expiry — the guards on this path do not imply timestamp + new_ttl <= timestamp + old_ttl (e.g. an aged item: set ttl=10 at t=100; flush delay=5 at t=108 -> alive until 113)" % (case, arm, short(r["new_ttl"], 100)), loc_s(r["event"].span))
     return rep
 
 
